@@ -343,11 +343,13 @@ pub fn c14(h: &mut H) {
         let n = 3usize;
         for variant in 0..2 {
             let mut nb = k.bases.clone();
-            nb[1] = Integer::from(&k.n_mod - &nb[1]);
-            if variant == 1 { nb[0] = Integer::from(&k.n_mod - &nb[0]); }
+            // (exactly ONE negated base: two negations with odd attributes cancel)
+            let neg_at = if variant == 0 { 1 } else { 0 };
+            nb[neg_at] = Integer::from(&k.n_mod - &nb[neg_at]);
             let kn = Keys { pk: k.pk.clone(), sk: k.sk.clone(), n_mod: k.n_mod.clone(), p: k.p.clone(), q: k.q.clone(), bases: nb.clone(), tape: vec![] };
             let bases = nb[..n].to_vec();
-            let reps = if h.thorough { 8 } else { 4 };
+            // (a slip shows for every second exponent e only, and re-issuance keeps e: 6 + 6 independent exponents)
+            let reps = if h.thorough { 12 } else { 6 };
             for rep in 0..reps {
                 let hidden: Vec<usize> = [vec![0usize], vec![1], vec![0, 2], vec![1, 2]][rep % 4].clone();
                 let mut msgs = attrs(h, n);
